@@ -563,13 +563,16 @@ def client_leaves_mid_write(run, pv, rng, idx):
 
 def flood_fairness(run, pv, rng, idx):
     """Bounded progress under sustained inbound traffic: the server sends one
-    keep-alive and then frames without pause (small socket buffers, so that its
-    sending is paced by the client's reading); the answer must arrive before
+    keep-alive and then frames without pause; the answer must arrive before
     the server has sent FLOOD_MAX further frames - a logical bound, far beyond
-    the client's read batch of 50 plus everything that fits into the buffers."""
+    the client's read batch of 50 plus everything that fits into the socket
+    buffers (1 MB each way: server and client share this process's GIL, so the
+    buffers must hold more than the client can consume in one of its turns, or
+    its input would run dry for reasons of the harness)."""
+    import select as _select
     import socket as _socket
     codec = codec_for(pv)
-    FLOOD_MAX = 12000
+    FLOOD_MAX = 60000
     kind = ('unknown', 'time', 'mixed')[idx % 3]
     state = {'sent': 0, 'answered_after': None}
 
@@ -577,7 +580,7 @@ def flood_fairness(run, pv, rng, idx):
         if scripts.read_handshake(io) is None:
             return
         scripts.login_offline(io, pv, None, codec)
-        io.sock.setsockopt(_socket.SOL_SOCKET, _socket.SO_SNDBUF, 32768)
+        io.sock.setsockopt(_socket.SOL_SOCKET, _socket.SO_SNDBUF, 1 << 20)
         io.send_frame(*codec.encode('cb_keep_alive', {'id': 4711}))
         filler = [io.encode_frame(0x7E, b'u' * 200)]
         if kind != 'unknown':
@@ -594,8 +597,10 @@ def flood_fairness(run, pv, rng, idx):
             except OSError:
                 break
             state['sent'] += per_chunk
+            if not _select.select([io.sock], [], [], 0)[0]:
+                continue                      # (no pause: poll only)
             try:
-                fr = io.recv_frame(0.0005)
+                fr = io.recv_frame(1.0)
             except mcserver.ScriptTimeout:
                 continue
             if fr is None:
@@ -619,7 +624,7 @@ def flood_fairness(run, pv, rng, idx):
     try:
         conn = pc.make_connection(server.port, rec, allowed_versions={pv},
                                   early_listener=False)
-        conn.vf_rcvbuf = 32768
+        conn.vf_rcvbuf = 1 << 20
         conn.connect()
         if not pc.wait_idle(conn, 60.0):
             return 'inconclusive', 'threads alive: ' + pc.dump_threads()
@@ -636,10 +641,100 @@ def flood_fairness(run, pv, rng, idx):
                           % state['sent'], dict(w, sent=state['sent']))
         else:
             run.seen('flood.answered_within', min(
-                b for b in (100, 500, 2000, 12000)
+                b for b in (1000, 5000, 20000, 60000)
                 if state['answered_after'] <= b))
         return 'done', w
     finally:
+        server.stop()
+        if conn is not None:
+            pc.safe_disconnect(conn)
+
+
+def backlog_fairness(run, pv, rng, idx):
+    """The deterministic form of the same demand: one keep-alive followed by
+    several thousand further frames is *already in the client's socket buffer*
+    when the client starts on it (its input cannot run dry, whatever the
+    scheduling).  The answer must be written after a bounded number of reads:
+    monitor = number of packets dispatched at the moment of the first write."""
+    import threading
+    from minecraft.networking.packets import clientbound
+    codec = codec_for(pv)
+    kind = ('unknown', 'time', 'mixed')[idx % 3]
+    n_frames = 4000
+    sent = threading.Event()
+    state = {'echo': None}
+
+    def handler(io):
+        if scripts.read_handshake(io) is None:
+            return
+        scripts.login_offline(io, pv, None, codec)
+        unknown = io.encode_frame(0x7E, b'u' * 200)
+        tu = io.encode_frame(*codec.encode('time_update', {
+            'world_age': 1, 'time_of_day': 2}))
+        buf = bytearray(io.encode_frame(*codec.encode('cb_keep_alive',
+                                                      {'id': 4712})))
+        for i in range(n_frames):
+            buf += unknown if kind == 'unknown' or (
+                kind == 'mixed' and i % 2) else tu
+        io.send_raw(bytes(buf))
+        sent.set()
+        try:
+            while True:
+                fr = io.recv_frame(20.0)
+                if fr is None:
+                    break
+                nm, vals = codec.decode('play', fr[0], fr[1])
+                if nm == 'sb_keep_alive' and vals['id'] == 4712:
+                    state['echo'] = True
+                    break
+        except mcserver.ScriptTimeout:
+            pass
+        did, dp = codec.encode('play_disconnect', {'reason': '"end"'})
+        io.send_frame(did, dp)
+        io.half_close()
+        io.drain(8.0)
+    server = mcserver.Server(handler)
+    rec = pc.Recorder()
+    conn = None
+    w = {'pv': pv, 'directed': 'backlog-fairness', 'backlog': kind,
+         'frames_behind_the_keep_alive': n_frames}
+    try:
+        conn = pc.make_connection(server.port, rec, allowed_versions={pv})
+        conn.vf_rcvbuf = 4 << 20
+        first_write = []
+
+        def hold(_p):
+            sent.wait(10.0)        # everything is buffered before play begins
+            time.sleep(0.05)
+        conn.register_packet_listener(
+            hold, clientbound.login.LoginSuccessPacket, early=True)
+
+        def send_hook(kind_, proxy, data):
+            if kind_ == 'send' and sent.is_set() and not first_write:
+                first_write.append(sum(
+                    1 for p in rec.packets
+                    if type(p).__name__ != 'LoginSuccessPacket'))
+        conn.vf_send_hook = send_hook
+        conn.connect()
+        if not pc.wait_idle(conn, 60.0):
+            return 'inconclusive', 'threads alive: ' + pc.dump_threads()
+        server.join(15.0)
+        if [e for e in server.errors if e[1] == 'script']:
+            return 'inconclusive', 'server script: %r' % (server.errors[:1],)
+        if not first_write:
+            return 'inconclusive', 'no write observed'
+        run.count('directed.backlog_fairness')
+        w['packets_dispatched_before_the_answer_was_written'] = first_write[0]
+        run.seen('backlog.dispatched_before_answer', first_write[0])
+        if first_write[0] > 1000:
+            run.violation('play/answers-starved-by-inbound-traffic', 'with '
+                          '%d frames waiting behind a keep-alive the client '
+                          'dispatched %d packets before it wrote the answer '
+                          '(queued answers must be written between read '
+                          'batches)' % (n_frames, first_write[0]), w)
+        return 'done', w
+    finally:
+        sent.set()
         server.stop()
         if conn is not None:
             pc.safe_disconnect(conn)
@@ -760,6 +855,18 @@ def run(run):
                       'by a close or reset) still hold open descriptors',
                       {'descriptors_before': fds0, 'after': fds1,
                        'connection_objects_alive': len(KEPT)})
+    for i in range(18 if thorough else 3):
+        if not run.mine(i + 4):
+            continue
+        pv = rng.choice((47, 340, 757))
+        for attempt in range(2):
+            outcome, info = backlog_fairness(run, pv, rng, i)
+            if outcome == 'done':
+                break
+        run.case(('backlog', i))
+        if outcome != 'done':
+            run.inconclusive_because('backlog %d: %s' % (i, info))
+    run.require('directed.backlog_fairness', 3)
     run.require('directed.flood_fairness', 2)
     run.require('directed.client_leaves_mid_write', 2)
     run.require('directed.reset_mid_batch', 2)
